@@ -72,6 +72,14 @@ Definition read_real (reals : reals_t) (neg : bool) (s : string) : rres const :=
 
 Definition tk (t : ptok) : token := pt_tok t.
 
+(* strings.Trim(text, QUOTE): the listener removes every quote character at both ends of a string token's text — and
+   nothing else (no escape is interpreted): a doubled quote or a backslash-quote inside stays as the characters written *)
+Definition is_quote (c : ascii) : bool := code c =? 34.
+Fixpoint drop_quotes (cs : list ascii) : list ascii :=
+  match cs with c :: r => if is_quote c then drop_quotes r else cs | [] => [] end.
+Definition trimq (s : string) : string :=
+  str_of (rev (drop_quotes (rev (drop_quotes (list_ascii_of_string s))))).
+
 (* the spellings of the case-insensitive TRUE / FALSE tokens that strconv.ParseBool accepts (ExitBooleanLiteral) *)
 Definition bool_spelling (s : string) : bool :=
   String.eqb s "true" || String.eqb s "True" || String.eqb s "TRUE" || String.eqb s "false" || String.eqb s "False" || String.eqb s "FALSE".
@@ -83,7 +91,7 @@ Definition read_const (reals : reals_t) (ts : toks) : option (rres (const * pos 
     match tk t with
     | LxInt s => Some (dor z <- read_int false s ;; ROk (KInt z, pt_pos t, r))
     | LxReal s => Some (dor c <- read_real reals false s ;; ROk (c, pt_pos t, r))
-    | LxStr s => Some (ROk (KStr s, pt_pos t, r))
+    | LxStr s => Some (ROk (KStr (trimq s), pt_pos t, r))
     | LxBool b s => Some (if bool_spelling s then ROk (KBool b, pt_pos t, r) else RErr)
     | LxAt At_name => Some (ROk (KAtName, pt_pos t, r))
     | LxAt At_id => Some (ROk (KAtId, pt_pos t, r))
@@ -117,7 +125,7 @@ Definition read_key (ts : toks) : rres (mkey * toks) :=
       end
     | LxStr s, b :: r' =>
       match tk b with
-      | LxSym Y_rsq => if String.eqb s "" then RErr (* "MAP key should not be null string" *) else ROk (MKStr s, r')
+      | LxSym Y_rsq => if String.eqb (trimq s) "" then RErr (* "MAP key should not be null string" *) else ROk (MKStr (trimq s), r')
       | _ => RErr
       end
     | LxName _ n, b :: r' => match tk b with LxSym Y_rsq => ROk (MKVar n, r') | _ => RErr end
@@ -543,10 +551,11 @@ Section Expr.
     match ts with
     | a :: b :: r =>
       match tk a, tk b with
-      | LxKw Kw_rule, LxStr name =>
+      | LxKw Kw_rule, LxStr rawname =>
+        let name := trimq rawname in
         if String.eqb name "" then RErr else
         let '(desc, r1) := match r with
-                           | d :: r' => match tk d with LxStr s => (s, r') | _ => (EmptyString, r) end
+                           | d :: r' => match tk d with LxStr s => (trimq s, r') | _ => (EmptyString, r) end
                            | [] => (EmptyString, r)
                            end in
         dor x <- match r1 with
